@@ -11,7 +11,7 @@ from pathlib import Path
 from .common import MachineryError
 from .corpus import gen_specs, run_specs
 from .mod_corpus import CHUNK, _stats
-from .tracecheck import validate
+from .tracecheck import chunks, validate
 
 
 def main(d: str, n: str, seed: str, tier: str) -> None:
@@ -36,13 +36,13 @@ def main(d: str, n: str, seed: str, tier: str) -> None:
     results = []
     states = 0
     t1 = time.time()
-    for i in range(0, len(traced), CHUNK):
-        v = validate(traced[i:i + CHUNK], d / "tlc", tag=f"chunk{i // CHUNK}")
+    for ci, part in enumerate(chunks(traced, CHUNK)):
+        v = validate(part, d / "tlc", tag=f"chunk{ci}")
         states += v["states"]
-        for r, t in zip(v["results"], traced[i:i + CHUNK]):
+        for r, t in zip(v["results"], part):
             assert r["name"] == t["name"], (r["name"], t["name"])
             results.append({"name": t["name"], "n": r["n"], "viol": r["viol"], "dump_event": t.get("dump_event")})
-        (d / "tlc" / f"chunk{i // CHUNK}.json").unlink()
+        (d / "tlc" / f"chunk{ci}.json").unlink()
     t_tlc = time.time() - t1
     with gzip.open(d / "traces.json.gz", "wt") as f:
         json.dump([{"name": r["name"], "status": r["status"], "spec": r["spec"], "events": r["events"]} for r in runs], f)
